@@ -29,6 +29,14 @@ def gen(rng, tier):
         #  named after the project" to econf_readConfig and nothing of the kind to econf_readDirs: not the same parameters)
         if d1 and d2 and name and not any(c in d1 + d2 for c in b":;"):
             body += ["newopts 1 " + enc(b"PARSING_DIRS=" + d1 + b":" + d2), "readconfig 1 - - %s %s x3d x23" % (enc(name), enc(sfx)), "dump 1"]
+        nest = []
+        if rng.random() < 0.25:
+            # the accepting callback consults a layered policy configuration of its own before every verdict
+            nest = [trees.fsfile(b"/pol/usr/policy.conf", b"allow=1\n"), trees.fsdir(b"/pol/etc")]
+            for dd in (b"/pol/etc/policy.conf.d", b"/pol/etc/policy.d", b"/pol/etc/policy.longer-format.conf.d"):
+                nest += [trees.fsdir(dd), trees.fsfile(dd + b"/p.conf", b"secret=policy\n")]
+            nest.append("cbnest %s %s %s %s" % (enc(b"/pol/usr"), enc(b"/pol/etc"), enc(b"policy"), enc(b"conf")))
+        cmds += nest; npre = len(cmds)
         body += ["cb reject", "readdirs 2 " + args, "dump 2", "history " + args, "cb none", "history " + args, "histmerge " + args]
         out.append(Scenario(cmds + body, [False] * npre + [True] * len(body), tags=("nulldir" if not (d1 and d2) else "two",)))
     # a NULL or empty directory stands for the layer "" (files directly below "/"); the option string spells it as an
